@@ -712,12 +712,12 @@ def acc_matrix(tier):
 
 CHECKS = [
     Check("branches", judge_branches, strategy=lambda tier: branch_case(), quick=2500, thorough=60000,
-          rule="2-4 tuple branches (0-3 in-place mutators from Variable, UpdateContext, MakeFilename, Count, context set / delete / nested append, data append; "
+          rule="2-4 branches (tuples, bare accumulators, Source branches, optionally one twin of the last branch: same stateless elements, equal under ==; 0-3 in-place mutators from Variable, UpdateContext, MakeFilename, Count, context set / delete / nested append, data append; "
                "terminal Snap / StoreFilled / Sum accumulator, fill-request snapshotter, or none for per-block sequences) x drivers run (bufsize 1..4, n+1, 1000, None), "
                "Split fill+compute, Split fill+request (requests at generated points), Zip fill+compute / fill+request; flows 0..8 of (list or scalar, nested context). "
                "Non-trivial = >=2 mutating branches, >=2 values, >=1 value with context."),
     Check("accumulators", judge_acc, strategy=lambda tier: acc_case(), quick=2500, thorough=60000,
-          rule="34 accumulator configurations (Count, Sum, DSum, Mean x3, VarianceMeanCount x3, Vectorize x3, Histogram 1-2 dim, SplitIntoBins x3, Graph, FillComputeSeq x3, "
+          rule="37 accumulator configurations (Count, Sum, DSum, Mean x3, VarianceMeanCount x3, Vectorize x6 incl. over multi-result components, Histogram 1-2 dim, SplitIntoBins x3, Graph, FillComputeSeq x3, "
                "Split x2, Zip x2, FillRequest x3, FillRequestSeq) x histories of 3-10 ops fill(v, nested context) | compute/request | mutate yielded contexts (all / last / first). "
                "Non-trivial = a filled context with a nested container, >=2 outputs, >=1 output after a mutation."),
     Check("accumulator_matrix", judge_acc, cases=acc_matrix, exhaustive=True,
